@@ -12,6 +12,7 @@ from .values import (Adt, Coroutine, Closure, LV, SavedLV, Ref, BoxV, PyVec, PyS
 from .explore import Panic, PathAbort, StepLimit
 
 TRACE = int(os.environ.get('MIRSYM_TRACE', '0'))
+NOT_HANDLED = object()
 
 INT_BOUNDS = {
     'u8': (0, 2 ** 8 - 1), 'u16': (0, 2 ** 16 - 1), 'u32': (0, 2 ** 32 - 1), 'u64': (0, 2 ** 64 - 1),
@@ -130,6 +131,7 @@ class Interp:
         self.step_limit = 5_000_000
         self.depth = 0
         self._resolve_cache = {}
+        self._agg_cache = {}
         self.by_last = {}            # last path segment -> [fn names]
         self.impls = {}              # (trait|None, type) -> [impl prefix]
         self.derived = set()         # (trait, type) derived impls
@@ -303,9 +305,13 @@ class Interp:
     def operand(self, frame, op):
         k = op[0]
         if k == 'copy':
-            return copy_val(self.lv(frame, op[1]).get())
+            pl = op[1]
+            if not pl.proj:
+                return copy_val(frame[pl.base])
+            return copy_val(self.lv(frame, pl).get())
         if k == 'move':
-            v = self.lv(frame, op[1]).get()
+            pl = op[1]
+            v = frame[pl.base] if not pl.proj else self.lv(frame, pl).get()
             if isinstance(v, Adt):
                 return Adt(v.name, v.variant, v.fields[:])
             return v
@@ -437,6 +443,11 @@ class Interp:
         if sp is None:
             sp = strip_generics(path)
             self._resolve_cache[path] = sp
+        ch = self.env.get('call_hook')
+        if ch is not None:
+            r = ch(self, sp, path, args)
+            if r is not NOT_HANDLED:
+                return r
         mdl = self.models.lookup(sp)
         if mdl is not None:
             self.modelled.add(mdl.key)
@@ -587,7 +598,11 @@ class Interp:
                     k = st[0]
                     if k == 'assign':
                         v = self.rvalue(frame, st[2], f)
-                        self.lv(frame, st[1]).set(v)
+                        pl = st[1]
+                        if not pl.proj:
+                            frame[pl.base] = v
+                        else:
+                            self.lv(frame, pl).set(v)
                     elif k == 'call':
                         _, dest, func, aops, tg = st
                         args2 = [self.operand(frame, a) for a in aops]
@@ -793,14 +808,18 @@ class Interp:
             if body is None:
                 raise Unsupported('closure body not found for ' + path)
             return Closure(body, vals)
-        p = strip_generics(path)
-        parts = p.split('::')
-        last = parts[-1]
-        if len(parts) >= 2:
-            vi = self.variant_index(parts[-2], last)
-            if vi is not None:
-                return Adt(parts[-2], vi, vals)
-        return Adt(last, 0, vals)
+        ent = self._agg_cache.get(path)
+        if ent is None:
+            p = strip_generics(path)
+            parts = p.split('::')
+            last = parts[-1]
+            ent = (last, 0)
+            if len(parts) >= 2:
+                vi = self.variant_index(parts[-2], last)
+                if vi is not None:
+                    ent = (parts[-2], vi)
+            self._agg_cache[path] = ent
+        return Adt(ent[0], ent[1], vals)
 
     # ------------------------------------------------------------------ arithmetic
     def binop(self, op, a, b, ty):
